@@ -481,6 +481,51 @@ pub fn run(rng: &mut R, out: &mut Out) {
         out.count_n("exhaustive_double.addresses", done);
     }
 
+    // ---- custom networks (`parse_with_params` with caller-supplied parameters): hrps of 1..83 characters, so that the
+    // printed address lies on either side of every length limit of the decoders. Whatever the clean decoder does with
+    // an over-long VALID string, no string one or two data characters away from a valid one may parse.
+    for hl in [1usize, 2, 10, 30, 31, 32, 50, 51, 52, 70, 83] {
+        for (blinded, ver, len) in [(false, 0u8, 20usize), (false, 0, 32), (false, 1, 32), (false, 2, 40), (true, 0, 20), (true, 1, 32)] {
+            let mk_hrp = |seed: usize| -> String { (0..hl).map(|i| (b'a' + ((i * 7 + seed) % 26) as u8) as char).collect() };
+            let params: &'static AddressParams = Box::leak(Box::new(AddressParams {
+                p2pkh_prefix: 1, p2sh_prefix: 2, blinded_prefix: 3,
+                bech_hrp: Hrp::parse_unchecked(&mk_hrp(0)), blech_hrp: Hrp::parse_unchecked(&mk_hrp(3)),
+            }));
+            let bl = if blinded { Some(gen::pubkey(rng)) } else { None };
+            let a = wit_addr(params, ver, gen::bytes(rng, len), bl);
+            let s = a.to_string();
+            let sep = sep_pos(&s);
+            let valid_parses = Address::parse_with_params(&s, params).is_ok();
+            out.count(&format!("custom_hrp.len{}.total{}.valid_{}", hl, if s.len() <= 90 { "le90" } else { "gt90" }, if valid_parses { "parses" } else { "refused" }));
+            if valid_parses {
+                out.s("valid_address_parses", Address::parse_with_params(&s, params).ok().as_ref() == Some(&a), || s.clone());
+            }
+            // every single substitution at the version character and at 6 other data positions; sampled doubles
+            let mut positions = vec![sep + 1, sep + 2, s.len() - 1, s.len() - 7];
+            for _ in 0..3 { positions.push(sep + 1 + rng.gen_range(0..s.len() - sep - 1)); }
+            let mut n = 0u64;
+            for &i in &positions {
+                for &c in CHARSET.iter() {
+                    if c == s.as_bytes()[i] { continue; }
+                    let t = substitute(&s, &[(i, c)]);
+                    n += 1;
+                    let r = Address::parse_with_params(&t, params);
+                    out.s("single_substitution_rejected", r.is_err(), || format!("custom hrp of {} chars, orig={} corrupted={} accepted: {:?}", hl, s, t, r.as_ref().ok().map(|x| x.to_string())));
+                    let j = sep + 1 + rng.gen_range(0..s.len() - sep - 1);
+                    if j != i {
+                        let c2 = CHARSET[rng.gen_range(0..32)];
+                        if c2 != s.as_bytes()[j] {
+                            let t2 = substitute(&s, &[(i, c), (j, c2)]);
+                            let r2 = Address::parse_with_params(&t2, params);
+                            out.s("double_substitution_rejected", r2.is_err(), || format!("custom hrp of {} chars, orig={} corrupted={} accepted: {:?}", hl, s, t2, r2.as_ref().ok().map(|x| x.to_string())));
+                        }
+                    }
+                }
+            }
+            out.count_n("subst.custom_hrp", n);
+        }
+    }
+
     // ---- many random addresses, sampled corruption (breadth over lengths / versions)
     for _ in 0..60 * scale {
         let (_, p) = nets()[rng.gen_range(0..3)];
